@@ -2,7 +2,7 @@
 Lean: ScrapliModel/TimeoutRestore.lean, ScrapliProps/C14.lean (+C14Lemmas).  Real code: GenericDriver / IOSXEDriver /
 NetworkDriver (sync and asyncio) over the Sim transports of harness/c14rig.py, with a site-level probe hung on the
 constructed objects from outside.  Oracle: state after every call == state before it, on the real objects."""
-import asyncio, itertools, json, time
+import asyncio, itertools, json, threading, time
 from pathlib import Path
 
 from vlib.common import Check, VERIF, run_model
@@ -178,24 +178,24 @@ def mk(driver, stack, ops, faults=(), push=False, base=(30, 7), **kw):
 
 def timer_cases():
     """real timers, a device that goes silent and reads that really block (oracle only; each costs <= ~0.1 s).
-    Sync: SIGALRM timers do not nest (the transport timer replaces the ops timer), so the sync cases use a transport
-    timeout of 0 inside the call (read_duration < 1) or a tiny transport timeout."""
+    The sync cases run in a worker thread, so that the decorator uses its thread mechanism (as it does for the system and
+    telnet transports): SIGALRM timers do not nest (a transport read disarms the ops timer), which would make a main-thread
+    run wait for the rig's own 3 s limit."""
     never = [{"contains": "never-there", "name": "N"}]
-    out = [
-        # ops timer fires inside the read loop of send_and_read (asyncio: CancelledError at the read, inside the swap)
-        mk("generic", "async", [{"op": "send_and_read", "ov": 0.05, "rd": 1}, {"op": "send_command"}], [{"at_write": 2, "exc": "silent"}]),
-        mk("iosxe", "async", [{"op": "send_and_read", "ov": 0.05, "rd": 7.5}, {"op": "send_command", "ov": 1}], [{"at_write": 2, "exc": "silent"}], push=True),
-        mk("generic", "async", [{"op": "send_and_read", "ov": 0.05, "rd": 0.5}], [{"at_write": 1, "exc": "silent"}]),
-        mk("generic", "sync", [{"op": "send_and_read", "ov": 0.05, "rd": 0.5}, {"op": "send_command"}], [{"at_write": 2, "exc": "silent"}]),
-        mk("iosxe", "sync", [{"op": "send_and_read", "ov": 0.05, "rd": 0}], [{"at_write": 2, "exc": "silent"}], push=True),
-        mk("generic", "sync", [{"op": "send_and_read", "rd": "omit"}], [{"at_write": 1, "exc": "silent"}], base=(30, 0.05)),
-        # the task running read_callback is cancelled from outside while it waits
-        mk("generic", "async", [{"op": "read_callback", "init": True, "rt": 4.5, "cancel_after": 0.05, "cbs": never}], [{"at_write": 1, "exc": "silent"}], push=True),
-        # the temporary read_timeout itself expires (a real ScrapliTimeout from the transport read)
-        mk("generic", "async", [{"op": "read_callback", "init": True, "rt": 0.05, "cbs": never}, {"op": "send_command", "ov": 0.5}], [{"at_write": 1, "exc": "silent"}], push=True),
-        mk("generic", "sync", [{"op": "read_callback", "init": True, "rt": 0.05, "cbs": never}], [{"at_write": 1, "exc": "silent"}], push=True),
-    ]
-    return [dict(c, on_empty="block", timer=True) for c in out]
+    out = []
+    for stack in ("async", "sync"):
+        out += [
+            # ops timer fires while send_and_read waits inside its read loop (asyncio: CancelledError at the read; thread
+            # mechanism: the transport is closed under the blocked read) -- the exception leaves the swapped region
+            mk("generic", stack, [{"op": "send_and_read", "ov": 0.05, "rd": 1}, {"op": "send_command"}], [{"at_write": 2, "exc": "silent"}]),
+            mk("iosxe", stack, [{"op": "send_and_read", "ov": 0.05, "rd": 7.5}, {"op": "send_command", "ov": 1}], [{"at_write": 2, "exc": "silent"}], push=True),
+            mk("generic", stack, [{"op": "send_and_read", "ov": 0.05, "rd": 0.5}], [{"at_write": 1, "exc": "silent"}]),
+            # the temporary read_timeout itself expires (a real ScrapliTimeout from the transport read)
+            mk("generic", stack, [{"op": "read_callback", "init": True, "rt": 0.05, "cbs": never}, {"op": "send_command", "ov": 0.5}], [{"at_write": 1, "exc": "silent"}], push=True),
+        ]
+    # the task running read_callback is cancelled from outside while it waits
+    out.append(mk("generic", "async", [{"op": "read_callback", "init": True, "rt": 4.5, "cancel_after": 0.05, "cbs": never}], [{"at_write": 1, "exc": "silent"}], push=True))
+    return [dict(c, on_empty="block", timer=True, thread=(c["stack"] == "sync")) for c in out]
 
 
 def gen_cases(ck, tier, run_one):
@@ -220,7 +220,7 @@ def gen_cases(ck, tier, run_one):
     for drv in drivers:
         for stack in stacks:
             for i, tpl in enumerate(templates(drv)):
-                ovs = OV if tier == "thorough" else [OV[(i + ck.seed) % len(OV)], OV[(i + ck.seed + 3) % len(OV)]]
+                ovs = OV if tier == "thorough" else [OV[(i + ck.seed + d) % len(OV)] for d in (0, 2, 3)]
                 for j, ov in enumerate(ovs):
                     push = bool((i + j) % 2)
                     spec = with_override(tpl, ov)
@@ -231,7 +231,7 @@ def gen_cases(ck, tier, run_one):
                         for exc, soft in EXCS:
                             cases.append(mk(drv, stack, [spec], [{kind: k, "exc": exc, "soft": soft}], push=push))
     # (3) sequences of 2-3 calls with 0-2 faults anywhere
-    nseq = 700 if tier == "quick" else 12000
+    nseq = 2500 if tier == "quick" else 20000
     bases = [(30, 7), (30, 7), (30, 7), (0, 0), (30, 0), (0.5, 7.5), (10, 10)]
     for _ in range(nseq):
         drv = rng.choice(["generic", "iosxe", "iosxe", "network"])
@@ -281,7 +281,14 @@ def run_real(cases):
     for i, c in enumerate(cases):
         if c["stack"] == "sync":
             try:
-                out[i] = rig.run_case_sync(resolve(c))
+                if c.get("thread"):
+                    box = []
+                    th = threading.Thread(target=lambda: box.append(rig.run_case_sync(resolve(c))), daemon=True)
+                    th.start()
+                    th.join(20)
+                    out[i] = box[0] if box else ("EXC", "worker thread did not finish in 20 s")
+                else:
+                    out[i] = rig.run_case_sync(resolve(c))
             except Exception as e:
                 out[i] = ("EXC", repr(e))
     asyncio.run(all_async())
